@@ -20,7 +20,8 @@ TEXTS = {
                     'observer (second transaction / dump) in the middle of the writer are validated: dump before/during/after, nothing '
                     'emitted on rollback (the stream is part of the state). Single-operation transactions also go through the collection\'s one-call shortcuts '
                     '(Insert, QueryAt, DeleteAt, InsertKey, UpsertKey, QueryKey, DeleteKey) with failing callbacks: error returned iff the callback failed, and then no trace; '
-                    'seq/c02k does the same on a keyed collection.',
+                    'seq/c02k does the same on a keyed collection; conc/c02i: three writers with mostly inserts, a third of them failing, half of the transactions rolled back '
+                    '(an offset given back by one transaction is taken by another at once).',
             'note': _NOTE, 'technique': _T},
     'C03': {'text': 'IndexCoherent is an invariant of the specification (model-checked with three indexes over two columns incl. merge '
                     'and offset reuse) and is evaluated in every state of every validated real execution; histories create and drop '
@@ -82,7 +83,8 @@ TEXTS = {
                     'transaction); readers (QueryAt, Range, filtered Range, point reads nested inside a Range over another block) report the distinct triples read inside one callback (millions '
                     'of reads per run), each must be a committed version (Ascend readers too: as built they run without the latch and do see torn rows - '
                     'known finding D-ascend-no-latch, excused exactly for them); deterministic probes: with a writer parked inside the logger '
-                    'callback a reader of that block must not complete, a reader of another block must.',
+                    'callback a reader of that block must not complete, a reader of another block must; after a merge function has panicked between '
+                    'two columns of a commit (caller recovers) a reader either does not get in or sees the committed version.',
             'note': _NOTE + ' The torn-read search is statistical (real parallelism); the probes are deterministic.',
             'technique': _T + '; Apalache (inductive invariant of the latch protocol)'},
     'C11': {'text': 'NoCollision, OccupiedIsLive, FillAccounting, NoStaleValues are model-checked for 2 concurrent writers inserting '
@@ -131,7 +133,7 @@ TEXTS = {
                     'extensions and unrelated updates meanwhile; a restored snapshot and a replica with their own vacuum) are validated: '
                     'every removal needs a passed deadline at the in-latch timestamp, rows overdue by more than the slack must be gone, rows '
                     'not due must be there, Extend moves the deadline by exactly its argument (also when the deadline was set by the same transaction or '
-                    'insert), a Set buffers the deadline (time of the call + ttl) - also through an accessor obtained tens of milliseconds earlier - and copies '
+                    'insert), a zero time-to-live (set or cleared) is no deadline, a Set buffers the deadline (time of the call + ttl) - also through an accessor obtained tens of milliseconds earlier - and copies '
                     'carry the same deadlines.',
             'note': _NOTE + ' Wall-clock based: the slack is 10 intervals + 3 s.', 'technique': _T},
     'C18': {'text': 'Locks.tla lists for every code path the locks held around each access to each shared variable (Go RWMutex writer '
